@@ -64,7 +64,7 @@ func proxyPool(run *evid.Run, cfgs []harness.ProxyCfg, parallel int, fn func(p *
 			defer func() { <-sem }()
 			p, err := harness.StartProxy(cfg)
 			if err != nil {
-				run.Inconclusive(fmt.Sprintf("cannot start memproxy %s: %v", cfg.Name(), err))
+				startFailure(run, cfg.Name(), err)
 				return
 			}
 			cur := p
@@ -126,4 +126,18 @@ func lastLines(s string, n int) string {
 		}
 	}
 	return s
+}
+
+// startFailure reports why a memproxy could not be used: a server that runs, accepts a
+// connection and then does not answer a plain set is a violation of the property at hand (every
+// property here presupposes that commands are answered); anything else is an environment
+// problem and inconclusive.
+func startFailure(run *evid.Run, what string, err error) {
+	var ns *harness.NotServingError
+	if errors.As(err, &ns) {
+		run.Violation(fmt.Sprintf("%s|start-up|a set on a fresh connection to the %s port of the freshly started server is not answered", what, []string{"main", "batch"}[ns.Port]),
+			map[string]interface{}{"config": what, "detail": ns.Detail})
+		return
+	}
+	run.Inconclusive(fmt.Sprintf("cannot start memproxy %s: %v", what, err))
 }
